@@ -155,9 +155,37 @@ def pattern(tag, n):
     return bytes(((tag * 131 + i * 7 + (i >> 8)) & 0xff) for i in range(n)).hex() if n else '-'
 
 
-def shrink_steps(ctx, scn, fails, tag='shrink', max_tests=60):
-    """ddmin over the step list; fails(steps)->bool runs the real code."""
-    return vlib.ddmin(scn.steps, fails, max_tests=max_tests)
+def shrink(ctx, scn, oracle, max_rounds=14):
+    """Batch delta debugging over the abstract step list: every round tries all 'drop one chunk'
+    candidates in ONE run of the driver and keeps the shortest one on which the oracle still fails."""
+    cur = list(scn.steps)
+    gran = 2
+    for rnd in range(max_rounds):
+        if len(cur) <= 1:
+            break
+        chunk = max(1, len(cur) // gran)
+        cands = []
+        for i in range(0, len(cur), chunk):
+            st = cur[:i] + cur[i + chunk:]
+            if st:
+                if st[-1] != 'Q':
+                    st = st + ['Q']
+                cands.append(Scn('k%d_%d' % (rnd, i), scn.k, scn.sp, scn.m, scn.lim, scn.toA, scn.toB, st, scn.meta))
+        res, problems, dt = run(ctx, cands, 'shrink')
+        best = None
+        for c in cands:
+            r = res.get(c.id)
+            if r and r.get('go') and oracle(c, history(c, r)):
+                if best is None or len(c.steps) < len(best.steps):
+                    best = c
+        if best is not None:
+            cur = best.steps
+            gran = max(2, gran - 1)
+        else:
+            if chunk == 1:
+                break
+            gran = min(len(cur), gran * 2)
+    return Scn(scn.id + '_min', scn.k, scn.sp, scn.m, scn.lim, scn.toA, scn.toB, cur, scn.meta)
 
 
 # ---- scenario generation ----------------------------------------------------------------
@@ -264,6 +292,7 @@ def check(ctx, verdict, pid, scns, oracle, extra_broken=None, race=False):
     broken = list(problems)
     ndiff, first = 0, None
     nfail = 0
+    failing = []
     kinds = {}
     labels = {}
     distinct = set()
@@ -289,12 +318,21 @@ def check(ctx, verdict, pid, scns, oracle, extra_broken=None, race=False):
         msg = oracle(s, history(s, r))
         if msg:
             nfail += 1
-            if nfail <= 2:
-                sig, what = msg
-                verdict.oracle_failure(sig, '%s oracle: %s' % (pid, what),
-                                       dict(scenario=s.line(r['concrete']), abstract=s.line(), implementation=[','.join(e) for e in r['go']],
-                                            model=[','.join(e) for e in (r['model'] or [])],
-                                            how='python3 tools/check.py %s --replay <this file>' % pid))
+            failing.append((len(s.steps), s))
+    if failing:
+        failing.sort(key=lambda t: t[0])
+        s0 = failing[0][1]
+        sm = shrink(ctx, s0, oracle)
+        rr, _, _ = run(ctx, [sm], pid.lower() + '_min')
+        r = rr.get(sm.id)
+        if not (r and r.get('go') and oracle(sm, history(sm, r))):
+            ctx.notes.append('shrunk scenario did not reproduce; reporting the original')
+            sm = s0; r = res[s0.id]
+        sig, what = oracle(sm, history(sm, r))
+        verdict.oracle_failure(sig, '%s oracle: %s' % (pid, what),
+                               dict(scenario=sm.line(r['concrete']), abstract=sm.line(), implementation=[','.join(e) for e in r['go']],
+                                    model=[','.join(e) for e in (r['model'] or [])], failing_scenarios=len(failing),
+                                    how='python3 tools/check.py %s --replay <this file>' % pid))
     if first is not None:
         n, s, r, d = first
         broken.append(('model Mux.v vs multiplex.Session: %d of %d scenarios differ' % (ndiff, len(scns)),
@@ -356,7 +394,7 @@ def digest(hist):
             code, n, _ = ret
             if code != 4 or n > 0:
                 W[(side, sid)] = W.get((side, sid), '') + data[:2 * n]
-            if code != 0:
+            if code not in (0, 6):
                 info['werr'].append((i, side, sid, code))
             if code == 0 and (side, sid) in closed_stream:
                 info['after_close_write_ok'].append((i, side, sid))
@@ -381,6 +419,14 @@ def other(side):
     return 'B' if side == 'A' else 'A'
 
 
+def drained(hist):
+    """the last step is a state dump showing no message in flight on any connection"""
+    q = hist[-1]['q'] if hist else None
+    if not q:
+        return False
+    return all(v['toA'] == 0 and v['toB'] == 0 for c, v in q.items() if c.startswith('c'))
+
+
 def oracle_c01(scn, hist):
     """every stream, both directions: what was read is a prefix of what was written on that same
     stream; in scenarios without close / fault / timer it is all of it once everything has been
@@ -391,9 +437,17 @@ def oracle_c01(scn, hist):
         if not want.startswith(got):
             return ('corrupt', 'stream %d towards %s: read %d bytes that are not a prefix of the %d bytes written (first difference at byte %d)'
                     % (sid, side, len(got) // 2, len(want) // 2, next((j // 2 for j in range(0, min(len(got), len(want)), 2) if got[j:j + 2] != want[j:j + 2]), min(len(got), len(want)) // 2)))
-    if scn.meta.get('profile') in ('data', 'big') and not scn.sp:
+    if scn.meta.get('profile') in ('data', 'big') and not scn.sp and drained(hist) and not (info['fail'] or info['sess_close'] or info['tick'] or info['local_close']):
+        lastD = max([i for i, h in enumerate(hist) if h['step'][0] in 'DW'] + [-1])
+        bigread = set()
+        for i, h in enumerate(hist):
+            f = h['step'].split(':')
+            if f[0] == 'R' and i > lastD and int(f[3]) >= 1000000:
+                bigread.add((f[1], int(f[2])))
         for (side, sid), want in W.items():
             got = R.get((other(side), sid), '')
+            if (other(side), sid) not in bigread:
+                continue   # the scenario does not drain this stream after the last delivery
             if got != want:
                 return ('lost', 'stream %d from %s: %d bytes written, %d read after everything was delivered and drained' % (sid, side, len(want) // 2, len(got) // 2))
         if info['werr']:
@@ -421,7 +475,7 @@ def oracle_c13(scn, hist):
             return ('dup-seq', 'endpoint %s stream %d reused a sequence number: %s' % (side, sid, seqs[:20]))
         if seqs != sorted(seqs):
             return ('order', 'endpoint %s stream %d emitted sequence numbers out of order: %s' % (side, sid, seqs[:20]))
-        failures = any(h['ret'] and h['ret'][0] == 4 for h in hist)
+        failures = any(h['ret'] and h['ret'][0] == 4 and h['step'][0] in 'WXZ' for h in hist)
         if not failures and seqs != list(range(len(seqs))):
             return ('gap', 'endpoint %s stream %d: sequence numbers %s are not 0..n-1 although no send failed' % (side, sid, seqs[:20]))
         closing = [f for f in frames if f[1] != 0]
@@ -441,7 +495,7 @@ def oracle_c03(scn, hist):
     if info['after_close_write_ok']:
         i, side, sid = info['after_close_write_ok'][0]
         return ('write-after-close', 'step %d: write on stream %d succeeded at %s after %s had closed it' % (i, sid, side, side))
-    quiet = not info['fail'] and not info['sess_close'] and not info['tick'] and not scn.sp
+    quiet = not info['fail'] and not info['sess_close'] and not info['tick'] and not scn.sp and drained(hist)
     q = hist[-1]['q'] or {}
     if quiet and (q.get('A', {}).get('closed') or q.get('B', {}).get('closed')):
         quiet = False
